@@ -833,7 +833,7 @@ def r13_2_replace(ctx, prog, rule="R13.2"):
     ctx.floor(rule, "add closures", len(cl), 1)
     # remove::<T>: a dedicated slot is taken, or the first attribute of the type is removed *preserving the order of
     # the others* (Vec::remove at the found position; swap_remove / retain-by-other-key would reorder or over-delete)
-    paths, info = C.explore_fn(prog, SA + "::remove", "sa", [r"\{closure", r"stun_rs::attributes::StunAttribute::(is_\w+)$"])
+    paths, info = C.explore_fn(prog, SA + "::remove", "sa", [r"\{closure", r"stun_rs::attributes::StunAttribute::(is_\w+)$"], concrete_iters=True)
     ctx.fn(info["body"])
     seen = {}
     MUT = r"Vec::<.*>::(remove|swap_remove|retain|retain_mut|drain|truncate|clear|pop|insert|push|dedup\w*|sort\w*|reverse|swap|split_off|append|extend\w*)$|IndexMut"
